@@ -405,6 +405,10 @@ def run_shard(module: Any, ctx: Ctx) -> dict:
 
         runner.warm = ["none", "bases", "subs"][ctx.shard % 3]
         models_v2.warm(runner.warm)
+        if getattr(module, "WARM_LEGACY", False):
+            from pbt import models_legacy
+
+            models_legacy.warm(runner.warm)
         reset_globals(True)
     only = os.environ.get("VERIF_PARTS")
     for part in module.PARTS:
@@ -453,6 +457,10 @@ def replay_case(module: Any, case: dict) -> tuple[bool, str]:
         from pbt import models_v2
 
         models_v2.warm(case["warm"])
+        if getattr(module, "WARM_LEGACY", False):
+            from pbt import models_legacy
+
+            models_legacy.warm(case["warm"])
     datas = case["sequence"] if "sequence" in case else [case["data"]]
     for k, data in enumerate(datas):
         reset_globals(getattr(module, "CLEAR_MATCH_CACHES", True))
